@@ -1,6 +1,6 @@
 (* modelrun command "codegen-x86": the model of the x86-64 code generator against the real one. *)
 From Coq Require Import List ZArith NArith String Bool.
-From SCC Require Import Base.Sexp Lang.AxSyn Model.Backend Model.X86 Model.X86Io Model.RunBase.
+From SCC Require Import Base.Sexp Lang.AxSyn Sem.AxSem Sem.X86Sem Model.Backend Model.X86 Model.X86Io Model.RunBase.
 Import ListNotations.
 Open Scope string_scope.
 
@@ -21,11 +21,34 @@ Definition x86_tags (cs : list xcode) : string :=
   "nt" ++ (if spill then " spills" else " nospill") ++ (if calls then " print" else "") ++ (if tables then " table" else "")
   ++ " len" ++ n_to_string (N.of_nat (Nat.log2 (List.length cs))).
 
+Definition lin_fuel : nat := 50000.
+Definition x86_outer : nat := 2000.
+Definition x86_inner : nat := 2000.
+
+(* executable form of C06 on the implementation's output: AxCut linear machine vs. the emitted code *)
+Definition sem_check_x86 (p : prog) (cs : list xcode) (argss : list (list Z)) : option string :=
+  fold_left (fun acc args =>
+    match acc with
+    | Some _ => acc
+    | None =>
+        let ref := run_linear lin_fuel p args in
+        match snd ref with
+        | OExit _ =>
+            let got := fst (run_x86 x86_outer x86_inner cs args) in
+            if obs_eqb ref got then None
+            else Some ("class=x86-semantic-mismatch args=" ++ show (sL sZ args) ++ " expected=" ++ show (s_obs ref) ++ " got=" ++ show (s_obs got))
+        | _ => None
+        end
+    end) argss None.
+
+Definition defined_runs (p : prog) (argss : list (list Z)) : nat :=
+  List.length (filter (fun args => defined (run_linear lin_fuel p args)) argss).
+
 Definition codegen_x86_case (i r : sexp) : verdict :=
   match i with
-  | L [Q _; p; lc] =>
-      match g_prog p, getN lc with
-      | Some p, Some lc =>
+  | L [Q _; p; lc; argss] =>
+      match g_prog p, getN lc, getL (getL getZ) argss with
+      | Some p, Some lc, Some argss =>
           let m := x86_compile p lc in
           match r with
           | L [A "PANIC"; Q msg] =>
@@ -37,19 +60,23 @@ Definition codegen_x86_case (i r : sexp) : verdict :=
               match g_xcodes cs, getN n with
               | Some cs, Some n =>
                   let r' := L [L (map s_xcode cs); sN n] in
-                  match m with
-                  | Ok (mc, _, _) =>
-                      match cmp_sexp (s_res_codes m) r' with
-                      | VOk _ => VOk (x86_tags mc)
-                      | v => v
+                  match sem_check_x86 p cs argss with
+                  | Some why => VViol why
+                  | None =>
+                      match m with
+                      | Ok (mc, _, _) =>
+                          match cmp_sexp (s_res_codes m) r' with
+                          | VOk _ => VOk (x86_tags mc ++ " runs" ++ n_to_string (N.of_nat (defined_runs p argss)))
+                          | v => v
+                          end
+                      | Err _ => VDiff (show (s_res_codes m)) (show r')
                       end
-                  | Err _ => VDiff (show (s_res_codes m)) (show r')
                   end
               | _, _ => VBad "rust output unreadable"
               end
           | _ => VBad "rust output shape"
           end
-      | _, _ => VBad "input unreadable"
+      | _, _, _ => VBad "input unreadable"
       end
   | _ => VBad "input shape"
   end.
